@@ -31,6 +31,8 @@ QueryOps(s) ==
   {[a |-> "current"], [a |-> "spike"]}
   \cup {[a |-> "current_at", sel |-> sel] : sel \in [1..E0 -> SelS(s)]}
   \cup {[a |-> "spike_at", sel |-> sel] : sel \in [1..E0 -> SelS(s)]}
+  \cup (IF s.m.cf.sk = "dexp"
+        THEN {[a |-> x, sel |-> sel] : x \in {"pos_at", "neg_at"}, sel \in [1..E0 -> SelS(s)]} ELSE {})
 Ops(s) == MutOps(s) \cup QueryOps(s)
 
 Apply(s, o) ==
